@@ -96,7 +96,10 @@ def run_item(args):
         v = o.verdict
         rec = dict(name=o.name, item=item.name, kind=o.kind, fn=o.fn, status=o.status, backend=v.backend, ms=round(v.ms, 2),
                    reason=v.reason, info={k: str(x) for k, x in (o.info or {}).items()})
-        if o.status == 'failed':
+        if o.status == 'failed' or (o.status == 'undecided' and getattr(v, 'status', None) == 'sat' and getattr(item, 'replay', None)):
+            # (an obligation the solver refuted but that is only UNDECIDED for the prover -- the refutation went through a loop cut
+            #  without a contract, history state or diverging definitional symbols -- keeps its counter-model: if the item's replayer
+            #  reproduces a failure with it on the real code, that concrete run is a violation whatever the prover could conclude)
             rec['model'] = str(v.model)[:6000] if v.model is not None else None
             try:
                 from pyvc import cex
@@ -296,6 +299,22 @@ def report(prop, tier, seed, mod, results, native, wall):
         else:
             violations.append(('native', nf))
             nat_fail_new.append(nf)
+    # refuted-but-undecided obligations whose counter-model the item's replayer turns into a failing run of the real function
+    promoted = 0
+    for o in undecided_obl:
+        it_ = next((i for i in mod.ITEMS if i.name == o.get('item')), None)
+        if promoted >= 8 or it_ is None or not getattr(it_, 'replay', None) or not isinstance(o.get('cex'), dict) or '__error__' in o['cex'] \
+                or finding_for(findings, prop, o['name']) or native.get('not_run_replay'):
+            continue
+        os.makedirs(os.path.join(OUT, 'replay', prop), exist_ok=True)
+        tmp = os.path.join(OUT, 'replay', prop, '.probe.json')
+        json.dump(dict(property=prop, obligation=o['name'], item=o.get('item'), counterexample=o['cex']), open(tmp, 'w'), default=str)
+        rp = run_native(prop, tier, seed, extra=['--cex', tmp, '--item', it_.name])
+        os.remove(tmp)
+        promoted += 1
+        if rp.get('failures'):
+            o['promoted_by_replay'] = True
+            violations.append(('obligation', o))
     # a finding that is listed but no longer fails is not an error; listed-as-fixed entries suppress nothing
     os.makedirs(os.path.join(OUT, 'replay', prop), exist_ok=True)
     os.makedirs(os.path.join(OUT, 'evidence'), exist_ok=True)
